@@ -52,11 +52,17 @@ fn nop_cb(
 // ------------------------------------------------------------------------------------------
 
 /// Feed `input` in `chunk`-byte PROCESS calls (the last one FINISH), never FLUSH.
+pub type Ev = brotli::enc::encode::verif_stream_hook::EncodeEvent;
 pub fn stream_encode(p: &BrotliEncoderParams, input: &[u8], chunk: usize) -> Result<Vec<u8>, String> {
+    stream_encode_ev(p, input, chunk).map(|x| x.0)
+}
+/// same, with the recorded payload-encoder invocations (verif_stream_hook)
+pub fn stream_encode_ev(p: &BrotliEncoderParams, input: &[u8], chunk: usize) -> Result<(Vec<u8>, Vec<Ev>), String> {
     let r = catch_unwind(AssertUnwindSafe(|| {
         let mut s = BrotliEncoderStateStruct::new(StandardAlloc::default());
         s.params = p.clone();
         let mut out: Vec<u8> = Vec::new();
+        let mut events: Vec<brotli::enc::encode::verif_stream_hook::EncodeEvent> = Vec::new();
         let mut buf = vec![0u8; if input.len() < 2048 { 4096 } else { 1 << 16 }];
         let mut pos = 0usize;
         let mut steps = 0usize;
@@ -78,6 +84,7 @@ pub fn stream_encode(p: &BrotliEncoderParams, input: &[u8], chunk: usize) -> Res
             let ok = s.compress_stream(op, &mut avail_in, &input[pos..end], &mut in_off, &mut avail_out, &mut buf, &mut out_off, &mut total, &mut nop_cb);
             out.extend_from_slice(&buf[..out_off]);
             pos += in_off;
+            events.extend(brotli::enc::encode::verif_stream_hook::take());
             if !ok {
                 res = Err("compress_stream returned false".into());
                 break;
@@ -87,11 +94,11 @@ pub fn stream_encode(p: &BrotliEncoderParams, input: &[u8], chunk: usize) -> Res
             }
         }
         BrotliEncoderDestroyInstance(&mut s);
-        res.map(|_| out)
+        res.map(|_| (out, events))
     }));
     match r {
         Ok(x) => x,
-        Err(_) => Err("panic".into()),
+        Err(_) => { let _ = brotli::enc::encode::verif_stream_hook::take(); Err("panic".into()) }
     }
 }
 
@@ -193,6 +200,8 @@ pub fn read_framing(r: &mut BitReader) -> Option<Vec<Block>> {
         return Some(v);
     }
 }
+
+pub fn base128_len(v: u64) -> usize { let mut k = 1; let mut x = v >> 7; while x != 0 { k += 1; x >>= 7; } k }
 
 pub fn base128_decode(b: &[u8]) -> Option<u64> {
     let mut v: u128 = 0;
@@ -485,6 +494,7 @@ fn oneshot_rust(q: i32, lgwin: i32, input: &[u8], cap: usize) -> Result<(i32, us
         let keep = size.min(cap);
         (ret, size, buf[..keep].to_vec())
     }));
+    let _ = brotli::enc::encode::verif_stream_hook::take();
     r.map_err(|_| "panic".to_string())
 }
 
@@ -496,6 +506,7 @@ fn oneshot_c(q: i32, lgwin: i32, input: &[u8], cap: usize) -> (i32, usize, Vec<u
     let ret = unsafe {
         brotli::ffi::compressor::BrotliEncoderCompress(q, lgwin, brotli::ffi::compressor::BrotliEncoderMode::BROTLI_MODE_GENERIC, input.len(), if input.is_empty() { std::ptr::null() } else { input.as_ptr() }, &mut size, buf.as_mut_ptr())
     };
+    let _ = brotli::enc::encode::verif_stream_hook::take();
     let intact = buf[cap..].iter().all(|&x| x == 0x5a);
     let keep = size.min(cap);
     (ret, size, buf[..keep].to_vec(), intact)
@@ -731,17 +742,41 @@ fn run_c08(args: &Args, corr: &mut Corr, rep: &mut Report) {
         let input = content(kind, n, &mut rng);
         rep.evaluations += 1;
         let bound = BrotliEncoderMaxCompressedSize(n);
-        match stream_encode(&c.params(), &input, chunk) {
+        match stream_encode_ev(&c.params(), &input, chunk) {
             Err(e) => rep.viol("header:c08:stream-failed", &e, c.json(&input)),
-            Ok(out) => {
+            Ok((out, events)) => {
                 rep.nontrivial += 1;
+                let case = format!("{{\"quality\":{},\"lgwin\":{},\"large_window\":{},\"catable\":{},\"appendable\":{},\"magic_number\":{},\"size_hint\":\"{}\",\"n\":{},\"content\":{},\"chunk\":{},\"seed\":{},\"idx\":{}}}", c.q, c.lgwin, c.lw, c.cat, c.app, c.magic, c.hint, n, kind, chunk.min(1 << 40), seed, i);
                 if out.len() > bound {
-                    let sig = if c.hint >= (1 << 32) { "header:c08:stream-exceeds-bound:size_hint-above-u32" } else { "header:c08:stream-exceeds-bound" };
-                    rep.viol(sig, &format!("never-flushed stream of {} input bytes is {} bytes > advertised bound {}", n, out.len(), bound),
-                        format!("{{\"quality\":{},\"lgwin\":{},\"large_window\":{},\"catable\":{},\"appendable\":{},\"magic_number\":{},\"size_hint\":\"{}\",\"n\":{},\"content\":{},\"chunk\":{},\"seed\":{},\"idx\":{}}}", c.q, c.lgwin, c.lw, c.cat, c.app, c.magic, c.hint, n, kind, chunk.min(1 << 40), seed, i));
+                    // known finding D17: the magic block states a size hint of more than 5 base-128 bytes
+                    let sig = if c.magic && c.hint >= (1 << 32) { "header:c08:stream-exceeds-bound:size_hint-above-u32" } else { "header:c08:stream-exceeds-bound" };
+                    rep.viol(sig, &format!("never-flushed stream of {} input bytes is {} bytes > advertised bound {}", n, out.len(), bound), case.clone());
+                    rep.count(&format!("c08.stream.exceeds.hint_bytes_{}.cat{}.lw{}", base128_len(c.hint), b(c.cat), b(c.lw)));
                 }
                 let slack = bound as i64 - out.len() as i64;
                 rep.count(&format!("c08.stream.slack.{}", if slack < 0 { "negative".to_string() } else if slack < 4 { format!("{}", slack) } else if slack < 16 { "4-15".into() } else { "16+".into() }));
+                // the hypotheses of the Lean theorem `stream_total_le_bound`, checked on the recorded
+                // payload-encoder invocations: (guard) a meta-block of `len` input bytes advances the whole-byte
+                // position by at most len + 4 (+1 above 2^20); (blocks) every meta-block but the last
+                // covers at least 2^14 input bytes counted from the previous flush position
+                let mut first = true;
+                let nev = events.len();
+                for (k, ev) in events.iter().enumerate() {
+                    if ev.site != 0 { continue; }
+                    let len = ev.last_flush_pos_after - ev.last_flush_pos_before;
+                    if ev.out_size > 0 || len > 0 {
+                        if !first {
+                            let allow = len + 4 + if len > (1 << 20) { 1 } else { 0 };
+                            if ev.out_size > allow && !(len == 0) {
+                                rep.viol("header:c08:guard-hypothesis", &format!("a meta-block of {} input bytes produced {} whole bytes (> len + 4)", len, ev.out_size), case.clone());
+                            }
+                            if len == 0 && ev.out_size > 2 { rep.viol("header:c08:guard-hypothesis", "an empty last block took more than 2 bytes", case.clone()); }
+                        }
+                        if len > 0 && k + 1 < nev && len + 2 < (1 << 14) { rep.viol("header:c08:blocks-hypothesis", &format!("a non-final meta-block of only {} bytes without a flush", len), case.clone()); }
+                        if len > 0 { rep.count("c08.stream.metablocks"); }
+                        first = false;
+                    }
+                }
             }
         }
         rep
